@@ -721,6 +721,7 @@ fn c11_rand_op(r: &mut Rng, pool: &[String]) -> QOp {
         10 => QOp::TryInsertChecksum(hist::rand_cs_entries(r)),
         11 => QOp::TryGetChecksum,
         12 => QOp::IterInterleaved(r.next() as u32),
+        13 if r.coin() => QOp::CloneFrom((0..r.below(6)).map(|_| (gen::mixed_string(r, 0, 4, 30), gen::mixed_string(r, 0, 4, 30))).collect()),
         13 => QOp::RetainMut(c11::Pred::KeyNe(k), v),
         14 => QOp::TryFromIter((0..r.below(5)).map(|_| (gen::mixed_string(r, 0, 4, 30), gen::mixed_string(r, 0, 4, 30))).collect()),
         _ => QOp::GetMut(k, v),
